@@ -50,7 +50,9 @@ func runC08R2(c *Ctx, r *Rep) {
 						mode = "write"
 					}
 					key := fmt.Sprintf("%s|%s|%s %s", shortPkg(pk.PkgPath), id, table.Name(), mode)
-					if _, ok := held[want]; ok {
+					if _, ok := held[want]; ok && write && w.shared[want] {
+						r.bad(key, sel.Pos(), "the registry table %s is written while %s is held in shared mode only (RLock): two registrations, or a registration and a lookup, run concurrently on the map (fatal 'concurrent map writes'); a write needs Lock", table.Name(), want)
+					} else if ok {
 						r.ok(key, sel.Pos(), "under %s", want)
 					} else {
 						r.bad(key, sel.Pos(), "the registry table %s is accessed (%s) without holding %s: registration from one goroutine races with lookups from running contexts", table.Name(), mode, want)
@@ -83,6 +85,7 @@ func runC08R3(c *Ctx, r *Rep) {
 	pyp := c.MustPkg("py")
 	copies := false
 	deep := false
+	conditionalCopy := token.NoPos
 	ast.Inspect(nm.Body, func(n ast.Node) bool {
 		if kv, ok := n.(*ast.KeyValueExpr); ok && exprStr(kv.Key) == "Globals" {
 			if call, ok := kv.Value.(*ast.CallExpr); ok {
@@ -108,6 +111,16 @@ func runC08R3(c *Ctx, r *Rep) {
 		if !ok || !strings.Contains(exprStr(rs.X), "Globals") {
 			return true
 		}
+		topLevel := false
+		for _, st := range nm.Body.List {
+			if st == ast.Stmt(rs) {
+				topLevel = true
+			}
+		}
+		if !topLevel {
+			conditionalCopy = rs.Pos()
+			return true
+		}
 		ast.Inspect(rs.Body, func(m ast.Node) bool {
 			if ts, ok := m.(*ast.TypeSwitchStmt); ok {
 				for _, cl := range ts.Body.List {
@@ -122,6 +135,9 @@ func runC08R3(c *Ctx, r *Rep) {
 		})
 		return true
 	})
+	if conditionalCopy != token.NoPos {
+		r.bad("py|(*ModuleStore).NewModule|container globals copied unconditionally", conditionalCopy, "the loop that gives each module instance its own copy of container-valued globals runs only under a condition: for the module kinds excluded by it every context shares one list/dict object (os.environ, sys.path) and sees the others' changes")
+	}
 	r.check(copies, "py|(*ModuleStore).NewModule|Globals copied", nm.Pos(), "instance Globals built from impl.Globals.Copy()", "a module instance's Globals is not built from a copy of the implementation's Globals: every context shares one dictionary")
 	// (ii) per-context re-binding in NewContext
 	rebound := map[string]bool{}
